@@ -48,6 +48,7 @@ type vcGateCtl struct {
 	mu     sync.Mutex
 	parked map[string]*vcParked // by job kind (at most one live job per kind)
 	free   bool                 // pass-through (used to drain an aborted scenario)
+	frozen bool                 // jobs arriving now belong to an abandoned manager: block them for good
 	wake   chan struct{}
 }
 
@@ -57,6 +58,10 @@ func vcGate(point string) {
 	kind, phase, _ := strings.Cut(point, ".")
 	c := vcCtl
 	c.mu.Lock()
+	if c.frozen {
+		c.mu.Unlock()
+		select {}
+	}
 	if c.free {
 		c.mu.Unlock()
 		return
@@ -92,6 +97,12 @@ func (c *vcGateCtl) release(kind string) bool {
 		close(p.ch)
 	}
 	return ok
+}
+
+func (c *vcGateCtl) setFrozen(v bool) {
+	c.mu.Lock()
+	c.frozen = v
+	c.mu.Unlock()
 }
 
 func (c *vcGateCtl) setFree(v bool) {
@@ -168,6 +179,8 @@ type vcState struct {
 	NUnm   int                      `json:"nunm"`
 	NTags  int                      `json:"ntags"`
 	Unc    int                      `json:"unc"`
+	TagN   []string                 `json:"tagnames"`
+	UncN   []string                 `json:"uncnames"`
 	ReadEr []string                 `json:"readerr,omitempty"`
 }
 
@@ -214,6 +227,10 @@ type vcRun struct {
 	qtext   []string
 	nextCap int
 	nextTag int
+	nextDef int
+	lastSt  *vcState
+	jobTag  string // tag the live tagging job works on ("" none, "?" not identifiable: several tags were uncertain at launch)
+	tagLive bool
 	logs    *vcLogBuf
 	evMu    sync.Mutex
 	events  int
@@ -307,11 +324,16 @@ func (r *vcRun) dump() (*vcState, map[string]bool) {
 		st.Merge, st.Tag, st.Conv = m.mergeJobRunning, m.taggingJobRunning, m.converterJobRunning
 		st.Next, st.NRec, st.NUnm = m.nextStreamID, m.nStreamRecords, m.nUnmergeableIndexes
 		st.NTags = len(m.tags)
-		for _, t := range m.tags {
+		st.TagN, st.UncN = []string{}, []string{}
+		for n, t := range m.tags {
+			st.TagN = append(st.TagN, n)
 			if !t.Uncertain.IsZero() {
 				st.Unc++
+				st.UncN = append(st.UncN, n)
 			}
 		}
+		sort.Strings(st.TagN)
+		sort.Strings(st.UncN)
 		if len(m.importJobs) > 0 {
 			live["import"] = true
 		}
@@ -495,6 +517,21 @@ func (r *vcRun) observe(act []interface{}) *vcStep {
 	step.Events, step.EvPcaps = r.events, r.evPcaps
 	r.evMu.Unlock()
 	step.Log = r.logs.bad()
+	if st := step.St; st != nil {
+		r.lastSt = st
+		completedTag := len(act) == 2 && act[0] == "complete" && act[1] == "tag"
+		if !st.Tag {
+			r.jobTag = ""
+		} else if !r.tagLive || completedTag {
+			// a tagging job was launched by this action: it works on one of the uncertain tags
+			if len(st.UncN) == 1 {
+				r.jobTag = st.UncN[0]
+			} else {
+				r.jobTag = "?"
+			}
+		}
+		r.tagLive = st.Tag
+	}
 	return step
 }
 
@@ -596,6 +633,30 @@ func (r *vcRun) apply(op []json.RawMessage) []interface{} {
 		}
 		r.nextTag++
 		return []interface{}{"tagadd", name}
+	case "tagdel", "tagupd":
+		if r.lastSt == nil || len(r.lastSt.TagN) == 0 || (r.lastSt.Tag && r.jobTag == "?") {
+			return nil
+		}
+		name := r.lastSt.TagN[vcArgInt(op, 1)%len(r.lastSt.TagN)]
+		wasunc := false
+		for _, n := range r.lastSt.UncN {
+			if n == name {
+				wasunc = true
+			}
+		}
+		hit := r.lastSt.Tag && name == r.jobTag
+		if vcArgStr(op, 0) == "tagdel" {
+			if err := r.mgr.DelTag(name); err != nil {
+				panic(fmt.Sprintf("DelTag(%q): %v", name, err))
+			}
+		} else {
+			r.nextDef++
+			def := fmt.Sprintf("cdata:\"u%d\"", r.nextDef)
+			if err := r.mgr.UpdateTag(name, UpdateTagOperationUpdateQuery(def)); err != nil {
+				panic(fmt.Sprintf("UpdateTag(%q,%q): %v", name, def, err))
+			}
+		}
+		return []interface{}{vcArgStr(op, 0), name, wasunc, hit}
 	case "step":
 		parked := vcCtl.snapshot()
 		ks := []string{}
@@ -665,6 +726,7 @@ func (r *vcRun) scenario(w *bufio.Writer) {
 		}
 		r.queries = append(r.queries, q)
 	}
+	vcCtl.setFrozen(false)
 	vcCtl.setFree(false)
 	mgr, err := New(ds["pcap"], ds["index"], ds["snapshot"], ds["state"], ds["converter"], "")
 	if err != nil {
@@ -691,12 +753,19 @@ func (r *vcRun) scenario(w *bufio.Writer) {
 		// let everything run to completion without gates, then close the manager
 		vcCtl.setFree(true)
 		deadline := time.Now().Add(8 * time.Second)
+		quiet := false
 		for time.Now().Before(deadline) {
 			_, live := r.dump()
 			if live == nil || len(live) == 0 {
+				quiet = true
 				break
 			}
 			time.Sleep(2 * time.Millisecond)
+		}
+		if !quiet {
+			// jobs of this manager keep coming (e.g. an import that fails and is restarted for ever): park them for good
+			vcCtl.setFrozen(true)
+			defer func() { time.Sleep(50 * time.Millisecond) }()
 		}
 		c := make(chan struct{})
 		go func() { evClose(); mgr.Close(); close(c) }()
